@@ -21,11 +21,13 @@ GROUPS = ["awc_small", "awc_big", "shifts_small", "shifts_big", "shift_c_small",
 
 def plan(tier):
     return {
-        "shards": GROUPS,
+        "shards": GROUPS if tier == "quick" else [g + "@thorough" for g in GROUPS],
         "rule": "every primitive called on every operand tuple of its bounded domain and compared with ref.bv; "
                 "every register field getter/setter compared with the architectural bit positions; "
                 "state = one distinct input tuple",
-        "bounds": {"widths": "1..8 complete", "V32": [hex(v) for v in V32], "V64": [hex(v) for v in V64],
+        "bounds": {"widths": "1..8 complete" if tier == "quick" else "1..8 complete (shifts, saturation, extension: 1..10)",
+                   "V32": [hex(v) for v in V32] + ([] if tier == "quick" else ["every 1<<i", "every ~(1<<i)"]),
+                   "V64": [hex(v) for v in V64] + ([] if tier == "quick" else ["every 1<<i", "every ~(1<<i)"]),
                    "shift_amounts_32_64": "0..255", "modified_immediates": "all 2^12 x carry 0/1",
                    "register_backgrounds": ["0", "0xFFFFFFFF", "0x55555555", "0xAAAAAAAA"]},
         "exhaustive": True,
@@ -67,6 +69,13 @@ def tup(*a):
 
 def run_shard(group):
     from armulator.armv6 import bits_ops as B, shift as S
+    global V32, V64
+    thorough = group.endswith("@thorough")
+    group = group.split("@")[0]
+    WMAX = 11 if thorough else 9
+    if thorough and len(V32) < 40:
+        V32 = V32 + [1 << i for i in range(32)] + [0xFFFFFFFF ^ (1 << i) for i in range(32)]
+        V64 = V64 + [1 << i for i in range(64)] + [0xFFFFFFFFFFFFFFFF ^ (1 << i) for i in range(64)]
     res = Result()
     c = Cmp(res)
     T = {n: S.SRType[n] for n in ("LSL", "LSR", "ASR", "ROR", "RRX")}
@@ -88,7 +97,7 @@ def run_shard(group):
                            bv.add_with_carry(x, y, 1, 32))
     elif group in ("shifts_small", "shifts_big"):
         if group == "shifts_small":
-            dom = [(x, w, sh) for w in range(1, 9) for x in range(1 << w) for sh in range(0, 2 * w + 3)]
+            dom = [(x, w, sh) for w in range(1, WMAX) for x in range(1 << w) for sh in range(0, 2 * w + 3)]
         else:
             dom = [(x, 32, sh) for x in V32 for sh in range(256)] + [(x, 64, sh) for x in V64 for sh in range(256)]
         for x, w, sh in dom:
@@ -106,7 +115,7 @@ def run_shard(group):
                 c.call("shift.rrx", S.rrx, (x, w, sh), bv.rrx_c(x, w, sh)[0])
     elif group in ("shift_c_small", "shift_c_big"):
         if group == "shift_c_small":
-            dom = [(x, w, am) for w in range(1, 9) for x in range(1 << w) for am in range(0, 2 * w + 3)]
+            dom = [(x, w, am) for w in range(1, WMAX) for x in range(1 << w) for am in range(0, 2 * w + 3)]
         else:
             dom = [(x, 32, am) for x in V32 for am in range(256)] + [(x, 64, am) for x in V64 for am in range(256)]
         for x, w, am in dom:
@@ -120,7 +129,7 @@ def run_shard(group):
                     # carry passed as bool, as opcodes do
                     c.call("shift.shift_c(bool carry)", S.shift_c, (x, w, T[t], am, bool(ci)), exp, t)
     elif group == "extend_sat":
-        for src in range(1, 9):
+        for src in range(1, WMAX):
             for x in range(1 << src):
                 c.call("bits_ops.to_signed", B.to_signed, (x, src), bv.sint(x, src))
                 for dst in range(src, src + 9):
